@@ -15,6 +15,12 @@ use util::sort_result;
 #[cfg(test)]
 mod testlib;
 
+/// Verification hook: re-exports of internal helpers, only with the `verif` feature.
+#[cfg(feature = "verif")]
+pub mod verif {
+    pub use crate::util::{desc_to_lines, sort_result};
+}
+
 #[derive(Debug, Clone, Eq, PartialEq)]
 pub enum DescItemKind {
     /// Generic block of documentation.
